@@ -168,7 +168,7 @@ Proof.
   - rewrite skipn_nil, firstn_nil. reflexivity.
   - destruct a as [|a].
     + destruct b as [|b].
-      * simpl. rewrite spec_scan_false; [reflexivity|].
+      * rewrite spec_scan_false; [reflexivity|].
         intros i Hi. apply H2; [lia | exact Hi].
       * simpl. pose proof (H3 0 ltac:(lia) ltac:(simpl; lia)) as X. simpl in X. rewrite X.
         specialize (IH (first + 1)%Z 0 b). simpl in IH. rewrite Z.add_0_r in *.
@@ -195,7 +195,7 @@ Lemma scan_range_sub chk m first dict sf sl :
   (forall tid, (sf <= tid <= sl)%Z -> chk (tok first dict tid) = Some (m (tok first dict tid))) ->
   scan_range first dict sf sl chk = Some (spec_scan m first dict).
 Proof.
-  intros L1 L2 L3 H1 H2 H3. unfold scan_range, last_tid in *.
+  intros L1 L2 L3 H1 H2 H3. unfold scan_range, last_tid in *. unfold bytes in *.
   replace sf with (first + Z.of_nat (Z.to_nat (sf - first)))%Z at 1 by lia.
   apply scan_sub.
   - intros i Hi Hl. rewrite <- (tok_idx first). apply H1. lia.
@@ -242,7 +242,9 @@ Section SearchProofs.
   Theorem search_unordered first dict q : wfq q ->
     search parse false first dict q = Some (spec_scan (spec_match parse q) first dict).
   Proof.
-    intros W. unfold search. destruct q as [ts|r]; simpl in *.
+    intros W. unfold search. destruct q as [ts|r]; cbn [wfq] in *;
+      [change (spec_match parse (QLit ts)) with (glob ts)
+      |change (spec_match parse (QRange r)) with (range_spec parse r)].
     - destruct (is_literal ts) as [value|] eqn:El.
       + apply is_literal_some in El. subst ts.
         apply scan_range_sub; unfold last_tid; try lia.
@@ -257,12 +259,14 @@ Section SearchProofs.
   Theorem search_ordered first dict q : wfq q -> StronglySorted lt_bytes dict ->
     search parse true first dict q = Some (spec_scan (spec_match parse q) first dict).
   Proof.
-    intros W HS. unfold search. destruct q as [ts|r]; simpl in *.
+    intros W HS. unfold search. destruct q as [ts|r]; cbn [wfq] in *;
+      [change (spec_match parse (QLit ts)) with (glob ts)
+      |change (spec_match parse (QRange r)) with (range_spec parse r)].
     2:{ apply scan_range_sub; unfold last_tid; try lia.
         intros tid _. now rewrite range_check_spec. }
     set (last := last_tid first dict).
     destruct (is_literal ts) as [value|] eqn:El.
-    - apply is_literal_some in El. subst ts. unfold lit_narrow. fold last.
+    - apply is_literal_some in El. subst ts. cbn [spec_match]. unfold lit_narrow. fold last.
       destruct (bin_search_spec first last (fun tid => bleb value (tok first dict tid)))
         as (f & -> & Bf & Lo & Hi).
       { unfold last, last_tid. lia. }
@@ -277,7 +281,7 @@ Section SearchProofs.
         * intros tid Ht. rewrite <- lit_check_glob. simpl.
           destruct (beqb value (tok first dict tid)) eqn:E; [|reflexivity].
           apply beqb_true in E. pose proof (tok_sorted first dict HS f tid) as X.
-          rewrite Ef, <- E, bltb_irrefl in X. apply X; fold last; lia.
+          rewrite Ef, <- E, bltb_irrefl in X. symmetry. apply X; fold last; lia.
         * intros tid Ht. assert (tid = f) by lia. subst tid. rewrite <- lit_check_glob, Ef. simpl.
           now rewrite Nat.eqb_refl, (proj2 (beqb_true value value) eq_refl).
       + apply scan_range_sub; fold last; try lia; auto.
@@ -288,23 +292,29 @@ Section SearchProofs.
           destruct (Z.eq_dec tid f) as [->|N].
           -- rewrite <- E in Efound. rewrite (proj2 (beqb_true value value) eq_refl) in Efound.
              rewrite andb_true_r in Efound. apply Z.leb_gt in Efound. lia.
-          -- pose proof (tok_sorted first dict HS f tid) as X.
+          -- assert (X : bltb (tok first dict f) (tok first dict tid) = true).
+             { apply tok_sorted; auto; try lia; fold last; lia. }
              assert (Hf : bleb value (tok first dict f) = true) by (apply Hi; lia).
-             rewrite <- E in X. rewrite (ble_lt_trans _ _ _ Hf (X ltac:(lia) ltac:(lia) ltac:(fold last; lia))) in *.
-             pose proof (bltb_irrefl value). congruence.
-        * intros tid Ht. lia.
+             pose proof (ble_lt_trans _ _ _ Hf X) as Y. rewrite <- E in Y.
+             rewrite bltb_irrefl in Y. discriminate.
     - assert (Lit : is_literal ts = None) by exact El.
       set (w := new_wildcard ts). unfold wild_narrow. fold last.
-      set (p := w_prefix w). set (c := fun tid => cut (tok first dict tid) (length p)).
-      assert (cmono : forall a b, (first <= a <= b)%Z -> (b <= last)%Z -> bleb (c a) (c b) = true).
+      set (p := w_prefix w).
+      assert (cmono : forall a b, (first <= a <= b)%Z -> (b <= last)%Z ->
+                bleb (cut (tok first dict a) (length p)) (cut (tok first dict b) (length p)) = true).
       { intros a b Hab Hb. apply cut_mono. apply tok_sorted_le; auto; lia. }
-      destruct (bin_search_spec first last (fun tid => bleb p (c tid))) as (f & -> & Bf & Lo & Hi).
+      destruct (bin_search_spec first last (fun tid => bleb p (cut (tok first dict tid) (length p))))
+        as (f & Ef & Bf & Lo & Hi).
       { unfold last, last_tid. lia. }
       { intros a b Hab Hb Ha. eapply bleb_trans; [exact Ha|]. apply cmono; lia. }
-      destruct (bin_search_spec f last (fun tid => bltb p (c tid))) as (e & -> & Be & Lo2 & Hi2).
+      rewrite Ef.
+      destruct (bin_search_spec f last (fun tid => bltb p (cut (tok first dict tid) (length p))))
+        as (e & Ee & Be & Lo2 & Hi2).
       { lia. }
       { intros a b Hab Hb Ha. eapply blt_le_trans; [exact Ha|]. apply cmono; lia. }
-      assert (Hpre : forall tid, glob ts (tok first dict tid) = true -> c tid = p).
+      rewrite Ee.
+      assert (Hpre : forall tid, glob ts (tok first dict tid) = true ->
+                cut (tok first dict tid) (length p) = p).
       { intros tid G. apply (glob_has_prefix ts _ W Lit) in G. apply cut_prefix. exact G. }
       apply scan_range_sub; fold last; try lia.
       + intros tid Ht. destruct (glob ts (tok first dict tid)) eqn:G; [|reflexivity].
@@ -312,10 +322,40 @@ Section SearchProofs.
       + intros tid Ht. destruct (glob ts (tok first dict tid)) eqn:G; [|reflexivity].
         apply Hpre in G. specialize (Hi2 tid ltac:(lia)). simpl in Hi2.
         rewrite G, bltb_irrefl in Hi2. discriminate.
-      + intros tid Ht. apply wild_check_glob; auto. intros _. apply cut_prefix. fold p. fold (c tid).
-        apply ble_antisym.
+      + intros tid Ht. apply wild_check_glob; auto. intros _. apply cut_prefix. fold w. fold p.
+        symmetry. apply ble_antisym.
+        * apply Hi. lia.
         * specialize (Lo2 tid ltac:(lia)). simpl in Lo2. rewrite bltb_not_le in Lo2.
           now apply negb_false_iff in Lo2.
-        * apply Hi. lia.
   Qed.
 End SearchProofs.
+
+Lemma narrow_equiv parse
+  (PB : forall s k, parse s = Some k -> (- maxkey <= k <= maxkey)%Z) first dict q :
+  wfq q -> StronglySorted lt_bytes dict ->
+  search parse true first dict q = search parse false first dict q /\
+  search parse true first dict q = Some (spec_scan (spec_match parse q) first dict).
+Proof.
+  intros W HS. rewrite (search_ordered parse PB first dict q W HS).
+  rewrite (search_unordered parse PB first dict q W). auto.
+Qed.
+
+Lemma check_is_glob ts v : wf ts = true ->
+  match is_literal ts with
+  | Some s => lit_check false s v = glob ts v
+  | None => wild_check false (new_wildcard ts) v = Some (glob ts v)
+  end.
+Proof.
+  intros W. destruct (is_literal ts) as [s|] eqn:E.
+  - destruct ts as [|[x|] [|? ?]]; simpl in E; inversion E; subst. apply lit_check_glob.
+  - apply wild_check_glob; auto. discriminate.
+Qed.
+
+(* an oracle given as a table of bounded keys satisfies the oracle hypothesis *)
+Lemma lookup_bounded keys :
+  Forall (fun kv : bytes * Z => (- maxkey <= snd kv <= maxkey)%Z) keys ->
+  forall s k, lookup keys s = Some k -> (- maxkey <= k <= maxkey)%Z.
+Proof.
+  induction 1 as [|[s0 k0] l H HF IH]; intros s k; simpl; [discriminate|].
+  destruct (bytes_eqb s0 s); [intros E; inversion E; subst; exact H | apply IH].
+Qed.
